@@ -60,6 +60,8 @@ class World:
         self.probe_budget = 24
         self.probes_done = 0
         self.probes_skipped = 0
+        self.skip_events = []
+        self.real_probe_events = []
         self.watch = DATA_DIR
         self.in_mutation_probe = False
 
@@ -174,6 +176,7 @@ class World:
             sim.count("probe.memo_hits")
             return self.probe_memo[memo_key]
         sim.in_probe += 1
+        sim.probe_gen += 1
         saved_root = self.fs.root
         saved_servers = self.net.servers
         saved_fds = self.fs.fds
@@ -226,8 +229,11 @@ class World:
         if charge:
             if self.probes_done >= self.probe_budget:
                 self.probes_skipped += 1
+                self.skip_events.append(self.sim.evno)
                 return None
             self.probes_done += 1
+        if root is None:
+            self.real_probe_events.append(self.sim.evno)
         out = {}
         for ident in self.idents:
             st = self.probe(ident, root)
@@ -235,6 +241,16 @@ class World:
             if root is None:
                 self.record_state(ident, st, why)
         return out
+
+
+def timeline_exact(world, t_from, t_to):
+    """True iff the recorded cache timeline is complete over [t_from, t_to]: no crash-point probe was
+    skipped (budget) since the last real probe at or before t_from"""
+    p0 = 0
+    for e in world.real_probe_events:
+        if e <= t_from and e > p0:
+            p0 = e
+    return not any(p0 < s <= t_to for s in world.skip_events)
 
 
 def clean_exc(e, n=120):
